@@ -58,10 +58,12 @@ def run(chk, replay=None):
         for k in offs:
             for kind in ('cut', 'flip'):
                 bad = gz[:k] if kind == 'cut' else gz[:k] + bytes([gz[k] ^ 0x20]) + gz[k + 1:]
-                g = os.path.join(d, 'bad.log.gz'); open(g, 'wb').write(bad)
+                gname = ['bad.log.gz', 'BAD.LOG.GZ', 'bad.log.Gz', 'bad.gz', 'mongod.gZ'][(k + (kind == 'flip')) % 5]      # the suffix is matched without regard to case
+                g = os.path.join(d, gname); open(g, 'wb').write(bad)
                 rc, so, se = streamlib.cli_run(['redact', g, '-n'])
+                os.remove(g)
                 chk.count(); chk.nontriv(('gz', kind, k)); chk.dist('fault_gz_' + kind)
-                case = {'fault': 'gzip ' + kind, 'offset': k, 'rc': rc}
+                case = {'fault': 'gzip ' + kind, 'offset': k, 'rc': rc, 'file_name': gname}
                 if rc == 2 or rc < 0:
                     chk.violate('CLI crashed on damaged gzip', dict(case, stderr=se[-300:].decode('utf-8', 'replace')), tags=['cli', 'panic'])
                 if rc == 0 and so != full:
